@@ -88,6 +88,27 @@ def doStep (sch : Schema) (s : Suite) (j : Json) : Except String (Suite × Optio
   | "commit" => pure (commitAll s)
   | "reload" => pure (reloadAll s, none)
   | "reopen" => pure (reloadAll s, none)
+  | "noop" => pure (s, none)          -- something happened to ANOTHER TestSuite object
+  | "alias" =>
+    -- rows read from a table (`src[i]` / `src[a:b:c]`) and stored into a table: rows are values
+    let ti ← getNat j "t"
+    let si ← getNat j "src"
+    let opk ← getStr j "op"
+    match s[si]? with
+    | none => throw "bad source table"
+    | some src =>
+      if opk == "append" || opk == "setitem" then
+        match getItem src (← getInt j "si") with
+        | .error e => pure (s, some e)
+        | .ok r =>
+          if opk == "append" then pure (stepAt s ti (Op.append r))
+          else pure (stepAt s ti (Op.setItem (← getInt j "i") r))
+      else
+        match iterSlice src (← ofSlice (← j.getObjVal? "ssl")) with
+        | .error e => pure (s, some e)
+        | .ok rs =>
+          if opk == "extend" then pure (stepAt s ti (Op.extend rs))
+          else pure (stepAt s ti (Op.setSlice (← ofSlice (← j.getObjVal? "sl")) rs))
   | "process" =>
     let b ← getInt j "b"
     let g ← getBool j "gz"
